@@ -548,7 +548,7 @@ func doOp(cli *jrpc2.Client, op string, i int) string {
 		return fmt.Sprintf("call:%d:%v", out, err)
 	case "bigcall":
 		// a request of more than a megabyte
-		xs := make([]int, 220000)
+		xs := make([]int, 160000)
 		for j := range xs {
 			xs[j] = 100000 + j%7
 		}
@@ -710,7 +710,7 @@ func genWork(t *testing.T) func(*rapid.T) Work {
 		w := Work{Hold: rapid.Bool().Draw(t, "hold")}
 		n := rapid.IntRange(0, 6).Draw(t, "nops")
 		for i := 0; i < n; i++ {
-			w.Ops = append(w.Ops, rapid.SampledFrom([]string{"call", "call", "notify", "batch", "callerr", "callnf", "call", "notify", "batch", "bigcall"}).Draw(t, "op"))
+			w.Ops = append(w.Ops, rapid.SampledFrom([]string{"call", "call", "notify", "batch", "callerr", "callnf", "call", "notify", "batch", "call", "call", "notify", "batch", "callerr", "callnf", "call", "notify", "batch", "call", "call", "notify", "batch", "callerr", "callnf", "bigcall"}).Draw(t, "op"))
 		}
 		w.CloseAfter = rapid.IntRange(0, n).Draw(t, "closeafter")
 		w.Fail500 = !w.Hold && rapid.IntRange(0, 2).Draw(t, "fail500") == 0
